@@ -73,7 +73,7 @@ Section Any.
         destruct (open_file (w_fs w) vv 0 (abs_path qs) 0 0) as [s2 [r2|f2]]; cbn [fst snd] in Hf, Hs; try contradiction;
         [congruence|].
       destruct Hs as (c & at_ & om & -> & ->). subst s2. f_equal.
-      unfold f_read_dir, new_handle. cbn [hd_name hd_node hd_dir_infos hd_dir_index hd_mode hd_at hd_dir_names hd_view].
+      unfold f_read_dir, dir_read, new_handle. cbn [hd_name hd_node hd_dir_infos hd_dir_index hd_mode hd_at hd_dir_names hd_view].
       destruct p as [|c0 p']; [congruence|]. unfold abs_path.
       repeat match goal with |- context [match ?x with _ => _ end] => destruct x eqn:? end; reflexivity.
     - (* ReadFile *) unfold read_file.
